@@ -255,6 +255,109 @@ fn main() {
             }
             println!("{{\"summary\":true,\"functions\":{done},\"ok_runs\":{ok_runs},\"err_runs\":{err_runs}}}");
         }
+        "aframe" => {
+            // the frame law on ARRAY arguments: modifier applications over operands of many signatures,
+            // run on sentinels + argument arrays (empty ones included), with the frame hook on
+            const F11: [&str; 7] = ["⇌", "⊂1", "□", "+1", "⊢", "♭", "¯"];
+            const F21: [&str; 6] = ["⊂", "+", "⊟", "↥", "⊏", "⊡"];
+            const F31: [&str; 4] = ["⊂⊂", "++", "⊂⊙⊂", "⊟⊂"];
+            const F22: [&str; 4] = [":", "⊙⇌", "⊃⊂⊟", "⊃+-"];
+            const F12: [&str; 3] = [".", "⊃⇌□", "⟜⧻"];
+            const F32: [&str; 2] = ["⊃(++)(⊂⊂)", "⊙⊂"];
+            const F01: [&str; 2] = ["5", "[1 2]"];
+            const ARGS: [&str; 14] = ["\"\"", "[]", "\"ab\"", "[1 2 3]", "[1_2 3_4]", "↯0_3 0", "5", "{1 \"a\"}", "↯2_0 0", "[\"ab\"\"cd\"]", "0", "[0 1 2]", "↯0 □0", "[5]"];
+            let pools: [&[&str]; 7] = [&F11, &F21, &F31, &F22, &F12, &F32, &F01];
+            let sentinels: Vec<uiua::Value> = (0..3).map(|i| boxes(&[], vec![uiua::Value::from(format!("sentinel-{i}"))])).collect();
+            let argvals: Vec<uiua::Value> = ARGS.iter().filter_map(|a| run_uiua(a).ok().and_then(|mut s| s.pop())).collect();
+            let (mut done, mut tries, mut ok_runs, mut err_runs) = (0usize, 0usize, 0usize, 0usize);
+            while done < n && tries < n * 20 {
+                tries += 1;
+                let pf: &[&str] = *r.pick(&pools);
+                let f = r.pick(pf).to_string();
+                let pg: &[&str] = *r.pick(&pools);
+                let g = r.pick(pg).to_string();
+                let body = match r.below(22) {
+                    0 => format!("/({f})"),
+                    1 => format!("\\({f})"),
+                    2 => format!("∧({f})"),
+                    3 => format!("≡({f})"),
+                    4 => format!("∵({f})"),
+                    5 => format!("⍚({f})"),
+                    6 => format!("⊞({f})"),
+                    7 => format!("⍥({f})2"),
+                    8 => format!("⊕({f})"),
+                    9 => format!("⊜({f})"),
+                    10 => format!("⍣({f})({g})"),
+                    11 => format!("⊃({f})({g})"),
+                    12 => format!("⊓({f})({g})"),
+                    13 => format!("∩({f})"),
+                    14 => format!("⊙({f})"),
+                    15 => format!("⟜({f})"),
+                    16 => format!("⊸({f})"),
+                    17 => format!("⤙({f})"),
+                    18 => format!("⤚({f})"),
+                    19 => format!("◡({f})"),
+                    20 => format!("⨬({f}|{g})"),
+                    _ => format!("⬚0≡({f})"),
+                };
+                let src = format!("# Experimental!\nMain ← {body}\n");
+                let Ok(asm) = compile(&src, uiua::PreEvalMode::Lazy) else { continue };
+                let Some(mainf) = asm.exports.get("Main").and_then(|i| asm.bindings.get(*i)).and_then(|b| match &b.kind {
+                    uiua::BindingKind::Func(f) => Some(f.clone()),
+                    _ => None,
+                }) else { continue };
+                let (a, o) = (mainf.sig.args(), mainf.sig.outputs());
+                done += 1;
+                for _ in 0..3 {
+                    let mut env = uiua::Uiua::with_safe_sys().with_execution_limit(std::time::Duration::from_secs(2));
+                    for sv in &sentinels {
+                        env.push(sv.clone());
+                    }
+                    let idx: Vec<usize> = (0..a).map(|_| r.below(argvals.len())).collect();
+                    for i in &idx {
+                        env.push(argvals[*i].clone());
+                    }
+                    let shown: Vec<&str> = idx.iter().map(|i| ARGS[*i]).collect();
+                    uiua::verif::set_frame_monitor(true);
+                    let _ = uiua::verif::take_frame_violations();
+                    let res = catch(|| env.run_asm(asm.clone()).and_then(|_| env.call(&mainf)).map_err(|e| e.to_string()));
+                    uiua::verif::set_frame_monitor(false);
+                    for v in uiua::verif::take_frame_violations().into_iter().take(2) {
+                        println!("{{\"violation\":\"frame-monitor\",\"src\":{},\"sig\":\"|{a}.{o}\",\"args\":{:?},\"what\":{}}}", jstr(&src), shown, jstr(&v));
+                    }
+                    match res {
+                        Ok(Ok(())) => {
+                            ok_runs += 1;
+                            let d = uiua::verif::depths(&env);
+                            let st = env.take_stack();
+                            let mut bad = Vec::new();
+                            if st.len() != sentinels.len() + o {
+                                bad.push(format!("height {} expected {}", st.len(), sentinels.len() + o));
+                            }
+                            for (i, sv) in sentinels.iter().enumerate() {
+                                if st.get(i) != Some(sv) {
+                                    bad.push(format!("sentinel {i} damaged"));
+                                }
+                            }
+                            if d[1] != 0 || d[2] != 1 || d[5] != 0 || d[7] != 0 {
+                                bad.push(format!("hidden residue {d:?}"));
+                            }
+                            if !bad.is_empty() {
+                                println!("{{\"violation\":\"frame\",\"src\":{},\"sig\":\"|{a}.{o}\",\"args\":{:?},\"what\":{}}}", jstr(&src), shown, jstr(&bad.join("; ")));
+                            }
+                        }
+                        Ok(Err(e)) => {
+                            err_runs += 1;
+                            if e.contains("modified the argument list") || e.contains("bug in the interpreter") || e.contains("crashed") {
+                                println!("{{\"violation\":\"frame-runtime-check\",\"src\":{},\"sig\":\"|{a}.{o}\",\"args\":{:?},\"what\":{}}}", jstr(&src), shown, jstr(&e));
+                            }
+                        }
+                        Err(p) => println!("{{\"violation\":\"panic\",\"src\":{},\"sig\":\"|{a}.{o}\",\"args\":{:?},\"what\":{}}}", jstr(&src), shown, jstr(&p)),
+                    }
+                }
+            }
+            println!("{{\"summary\":true,\"functions\":{done},\"ok_runs\":{ok_runs},\"err_runs\":{err_runs}}}");
+        }
         "monitor" => {
             // the frame monitor (hook) on real corpus programs: every execution of a function or operand
             // with a signature, in programs that use arrays and every modifier the corpus uses
@@ -294,6 +397,6 @@ fn main() {
             }
             println!("{{\"summary\":true,\"monitored_programs\":{ran},\"ok_runs\":{ok_runs},\"err_runs\":{err_runs},\"violations\":{viol}}}");
         }
-        _ => eprintln!("usage: c02 export|exec|frame|monitor N"),
+        _ => eprintln!("usage: c02 export|exec|frame|aframe|monitor N"),
     }
 }
